@@ -35,7 +35,7 @@ def run(ctx):
         cases = [(c['prog'], c['inputs'])]
         pick = {0: [c['variant']] if c.get('variant') else variants}
     else:
-        n, per = (6, 5) if ctx.quick else (70, 8)
+        n, per = (6, 5) if ctx.quick else (40, 6)
         cases = gen_cases(ctx, n)
         # rotate so that every variant is exercised; 'fuse' programs always see the variants that pass `vertical`
         pick = {}
@@ -48,7 +48,7 @@ def run(ctx):
             pick[i] = vs
     results, fails, legal = S.behaviour_check_multi(ctx, 'scc', cases, variants, S.transform_c37, pick=pick)
     S.report_failures_multi(ctx, 'C37', cases, results, fails, S.transform_c37, shrink=not ctx.replay,
-                            budget=3 if ctx.quick else 24, shrink_all=not ctx.quick)
+                            budget=3 if ctx.quick else 10, shrink_all=not ctx.quick)
     ctx.cover['programs_with_legal_inputs'] = len(legal)
     ctx.cover['variants_exercised'] = sorted({v for r in results for v in r['new']})
     ctx.cover['variant_runs_ok'] = {v: sum(1 for r in results if r['new'].get(v, ('',))[0] == 'ok') for v in variants}
